@@ -84,7 +84,7 @@ def cover(e):
     else:
         if op == "round_fract":
             cs.append("base:%d" % e["base"])
-            if e.get("huge"):
+            if e["src"] == "huge":
                 cs.append("huge-digits")
         for m in MODES:
             cs.append("adj:" + e["res"][m])
